@@ -46,10 +46,34 @@ class RemoveEnclosingMiddleware(BlockMiddleware):
         return REMOVED_ENCLOSING_KEY
 
     @staticmethod
+    def _is_single_enclosed_text(value: str) -> bool:
+        """Whether the first and the last character of `value` belong together.
+
+        They do not in a concatenation such as `{a} # {b}` or `"a" # "b"`: there the
+        opening brace is closed (resp. a bare quote occurs) before the end."""
+        depth = 0
+        escaped = False
+        last = len(value) - 1
+        for i, char in enumerate(value):
+            if escaped:
+                escaped = False
+            elif char == "\\":
+                escaped = True
+            elif char == "{":
+                depth += 1
+            elif char == "}":
+                depth = max(depth - 1, 0)
+                if depth == 0 and value[0] == "{" and i < last:
+                    return False
+            elif char == '"' and value[0] == '"' and depth == 0 and 0 < i < last:
+                return False
+        return True
+
+    @staticmethod
     def _strip_enclosing(value: str) -> Tuple[str, Union[str, None]]:
         value = value.strip()
         # A single character cannot be both the opening and the closing character.
-        if len(value) >= 2:
+        if len(value) >= 2 and RemoveEnclosingMiddleware._is_single_enclosed_text(value):
             if value.startswith("{") and value.endswith("}"):
                 return value[1:-1], "{"
             if value.startswith('"') and value.endswith('"'):
